@@ -253,7 +253,9 @@ def replay_algebra(ctx, rec, variant):
                 fname, dts, float(np.nanmin(flat)), float(np.nanmax(flat))), case, sig)
             continue
         if key == "diff" and not rec["diffdef"]:
-            continue          # XOR is stated for two masks only; range and immutability were checked
+            # XOR is stated for two masks only; range and immutability were checked, independence of calls still holds
+            alias_check(ctx, lambda: getattr(cryomask, fname)(list(items)), res, case, sig, fname)
+            continue
         if not bool(np.all((flat == 0) | (flat == 1))):
             ctx.fail("C13_AlgebraIsVoxelwiseLogic", "%s(%s) of binary masks is not binary" % (fname, dts), case, sig)
             continue
